@@ -2,11 +2,15 @@
 FS_ADAPTERS = ["mem", "kvplain", "osref"]
 
 
+WALKS_Q = ["--walks", "150", "--walk-len", "300", "--walk-avoid", "readfile/dir"]
+WALKS_T = ["--walks", "1500", "--walk-len", "400", "--walk-avoid", "readfile/dir"]
+
+
 def fscore_stages(ctx):
     if ctx.tier == "quick":
-        graph_stage(ctx, "fscore-quick", "MC_FSCore.tla", "FSCore.quick.cfg", "fscore", FS_ADAPTERS, ["--names", "a,b", "--depth", "3"])
+        graph_stage(ctx, "fscore-quick", "MC_FSCore.tla", "FSCore.quick.cfg", "fscore", FS_ADAPTERS, ["--names", "a,b", "--depth", "3"] + WALKS_Q)
     else:
-        graph_stage(ctx, "fscore-quick", "MC_FSCore.tla", "FSCore.quick.cfg", "fscore", FS_ADAPTERS, ["--names", "a,b", "--depth", "3"])
+        graph_stage(ctx, "fscore-quick", "MC_FSCore.tla", "FSCore.quick.cfg", "fscore", FS_ADAPTERS, ["--names", "a,b", "--depth", "3"] + WALKS_T)
         graph_stage(ctx, "fscore-deep", "MC_FSCore.tla", "FSCore.thorough.cfg", "fscore", FS_ADAPTERS, ["--names", "a,b", "--depth", "4"], workers=12)
         graph_stage(ctx, "fscore-wide", "MC_FSCore.tla", "FSCore.thorough2.cfg", "fscore", FS_ADAPTERS, ["--names", "a,b", "--depth", "3"], workers=12)
 
@@ -20,7 +24,8 @@ def c03_stages(ctx):
 
 def handles_stages(ctx):
     cfg = "Handles.quick.cfg" if ctx.tier == "quick" else "Handles.thorough.cfg"
-    graph_stage(ctx, "handles", "MC_Handles.tla", cfg, "handles", FS_ADAPTERS, workers=8)
+    walks = ["--walks", "150" if ctx.tier == "quick" else "1500", "--walk-len", "300"]
+    graph_stage(ctx, "handles", "MC_Handles.tla", cfg, "handles", FS_ADAPTERS, walks, workers=8)
 
 
 def dirh_stages(ctx, adapters=("mem", "kvplain", "osref")):
